@@ -1613,7 +1613,7 @@ impl Relation {
             } else {
                 self.0.children_with_tokens().count()
             };
-            let new_root = SyntaxNode::new_root(self.0.green().splice_children(
+            let new_root = SyntaxNode::new_root_mut(self.0.green().splice_children(
                 idx..idx,
                 vec![
                     GreenToken::new(WHITESPACE.into(), " ").into(),
@@ -1666,16 +1666,10 @@ impl Relation {
         builder.token(R_ANGLE.into(), ">");
         builder.finish_node();
 
-        let node_profiles = self.0.children().find(|n| n.kind() == PROFILES);
-        if let Some(node_profiles) = node_profiles {
-            let new_root = SyntaxNode::new_root_mut(builder.finish());
-            self.0.splice_children(
-                node_profiles.index()..node_profiles.index() + 1,
-                vec![new_root.into()],
-            );
-        } else {
+        // Profile groups come last: a new group goes after any existing ones
+        {
             let idx = self.0.children_with_tokens().count();
-            let new_root = SyntaxNode::new_root(self.0.green().splice_children(
+            let new_root = SyntaxNode::new_root_mut(self.0.green().splice_children(
                 idx..idx,
                 vec![
                     GreenToken::new(WHITESPACE.into(), " ").into(),
